@@ -104,7 +104,7 @@ def metamorphic(chk, results):
         if g.get("r") != "ok":
             continue
         q = c["q"]
-        if q[2] or "m" not in c["doc"]:
+        if q[2] or "m" not in c["doc"] or " FROM m" not in c["sql"] or (c.get("tag") or "").startswith("ctx:"):
             continue  # DISTINCT does not distribute over concatenation; the metamorphic runs use the `m` documents
         arrays = flat_arrays(c["doc"]["m"])
         start = len(reqs)
